@@ -123,3 +123,23 @@ def run(ctx):
     ctx.sample({"compiler": ex["comp"], "original": ex["P"], "compiled_names": ex.get("qnames")})
     ctx.assumptions += ["TLC, Json reader, harness/upj.py trusted",
                         "documented rejections are not listed per compiler: every exception inside supports(kind) is reported with its raising site as signature"]
+
+
+def replay_common(ctx, rec, mode):
+    """Re-run the real compiler (or factory pipeline) on the recorded problem and let TLC judge the record again."""
+    d = rec["data"]
+    comp = d["compiler"].split("+") if "+" in d["compiler"] else d["compiler"]
+    r = compobs.worker((1, d["problem"], comp, False))
+    if r["skip"]:
+        print("replay: not compiled on the current tree (%s)" % r["skip"])
+        return 0
+    _, fails = judge(ctx, [r], mode)
+    for f in fails:
+        print("REPRODUCED property=%s clause=%s" % (mode, f[2]))
+    if not fails:
+        print("replay: no violation on the current tree")
+    return 1 if fails else 0
+
+
+def replay(ctx, rec):
+    return replay_common(ctx, rec, "C08")
